@@ -91,6 +91,7 @@ func Load(patterns []string, lib *SpecLib) (*Loaded, error) {
 			return nil, err
 		}
 	}
+	lib.MergeTrusted()
 	cfg := &packages.Config{Mode: packages.LoadAllSyntax, Dir: repoUtils, BuildFlags: []string{"-tags=verif"}, Overlay: instantiationOverlay(lib),
 		Env: append(os.Environ(), "GOFLAGS=-mod=mod", "GOPROXY=off")}
 	pkgs, err := packages.Load(cfg, patterns...)
@@ -112,6 +113,86 @@ func Load(patterns []string, lib *SpecLib) (*Loaded, error) {
 	prog, spkgs := ssautil.AllPackages(pkgs, ssa.NaiveForm|ssa.GlobalDebug|ssa.InstantiateGenerics)
 	prog.Build()
 	return &Loaded{Prog: prog, Pkgs: spkgs, Lib: lib}, nil
+}
+
+// ApplySchemas adds the clauses of every schema to the contracts of the functions
+// whose key matches its pattern ('*' wildcard). Functions that only get schema
+// clauses are still inlined at their call sites (flag inline).
+func (ex *Exec) ApplySchemas() {
+	if len(ex.lib.Schemas) == 0 {
+		return
+	}
+	for fn := range ssautil.AllFunctions(ex.prog) {
+		if len(fn.Blocks) == 0 || !isRepoFunc(fn) || fn.Parent() != nil || fn.Synthetic != "" {
+			continue
+		}
+		key := funcKey(fn)
+		for _, sc := range ex.lib.Schemas {
+			if !globMatch(sc.Key, key) || !tagActive(sc.Tags, ex.prop) {
+				continue
+			}
+			// "requires ctx" style filters: schema flag needs-param:<name>
+			skip := false
+			for fl := range sc.Flags {
+				if fl == "needs-direct-backend" && !ex.hasDirectBackendOp(fn) {
+					skip = true
+				}
+				if fl == "needs-lasterr" {
+					rs := fn.Signature.Results()
+					if rs.Len() == 0 || !isErrorType(rs.At(rs.Len()-1).Type()) {
+						skip = true
+					}
+				}
+				if strings.HasPrefix(fl, "needs-param:") {
+					want := strings.TrimPrefix(fl, "needs-param:")
+					found := false
+					for _, p := range fn.Params {
+						if p.Name() == want {
+							found = true
+						}
+					}
+					if !found {
+						skip = true
+					}
+				}
+			}
+			if skip {
+				continue
+			}
+			c := ex.lib.Contracts[key]
+			if c == nil {
+				c = &Contract{Key: key, Flags: map[string]bool{}, File: sc.File, Line: sc.Line, PkgPath: sc.PkgPath}
+				ex.lib.Contracts[key] = c
+			}
+			for _, cl := range sc.Clauses {
+				cp := *cl
+				cp.Schema = true
+				if len(cp.Tags) == 0 {
+					cp.Tags = sc.Tags
+				}
+				c.Clauses = append(c.Clauses, &cp)
+			}
+		}
+	}
+}
+
+func globMatch(pat, s string) bool {
+	parts := strings.Split(pat, "*")
+	if len(parts) == 1 {
+		return pat == s
+	}
+	if !strings.HasPrefix(s, parts[0]) {
+		return false
+	}
+	s = s[len(parts[0]):]
+	for i := 1; i < len(parts)-1; i++ {
+		j := strings.Index(s, parts[i])
+		if j < 0 {
+			return false
+		}
+		s = s[j+len(parts[i]):]
+	}
+	return strings.HasSuffix(s, parts[len(parts)-1])
 }
 
 // findSentinels records package-level error variables that are initialised
@@ -218,4 +299,109 @@ func (ex *Exec) findSentinels() {
 			ex.sentinelText[name] = infos[r].text
 		}
 	}
+}
+
+// checkImmutable registers the heap keys of fields declared immutable and proves the
+// declaration by a scan of the whole program: a store to such a field is allowed only
+// through a pointer to an object allocated in the same function (construction).
+func (ex *Exec) checkImmutable() {
+	if len(ex.lib.Immutable) == 0 {
+		return
+	}
+	type fld struct {
+		named *types.Named
+		idx   int
+	}
+	var flds []fld
+	for _, im := range ex.lib.Immutable {
+		parts := strings.SplitN(im[1], ".", 2)
+		if len(parts) != 2 {
+			ex.errs = append(ex.errs, "bad immutable declaration "+im[1])
+			continue
+		}
+		var pkg *ssa.Package
+		for _, p := range ex.prog.AllPackages() {
+			if p.Pkg.Path() == im[0] {
+				pkg = p
+			}
+		}
+		if pkg == nil {
+			continue
+		}
+		t, ok := pkg.Members[parts[0]].(*ssa.Type)
+		if !ok {
+			ex.cerr("immutable: unknown type %s", parts[0])
+			continue
+		}
+		named := t.Type().(*types.Named)
+		st := structOf(named)
+		found := false
+		for i := 0; st != nil && i < st.NumFields(); i++ {
+			if st.Field(i).Name() == parts[1] {
+				flds = append(flds, fld{named, i})
+				ex.immutableKeys[pathKey(named, []int{i})] = true
+				found = true
+			}
+		}
+		if !found {
+			ex.cerr("immutable: unknown field %s", im[1])
+		}
+	}
+	for fn := range ssautil.AllFunctions(ex.prog) {
+		if !isRepoFunc(fn) {
+			continue
+		}
+		for _, b := range fn.Blocks {
+			for _, ins := range b.Instrs {
+				s, ok := ins.(*ssa.Store)
+				if !ok {
+					continue
+				}
+				fa, ok := s.Addr.(*ssa.FieldAddr)
+				if !ok {
+					continue
+				}
+				for _, f := range flds {
+					if fa.Field == f.idx && types.Identical(derefType(fa.X.Type()), f.named) {
+						if _, isAlloc := fa.X.(*ssa.Alloc); !isAlloc {
+							ex.errs = append(ex.errs, fmt.Sprintf("field %s.%s declared immutable is assigned in %s (%s)", f.named.Obj().Name(), structOf(f.named).Field(f.idx).Name(), fn.String(), ex.pos(s.Pos())))
+						}
+					}
+				}
+			}
+		}
+	}
+}
+
+// hasDirectBackendOp: the function (or a closure defined in it) contains a call of a
+// callee whose contract carries the flag backend-op.
+func (ex *Exec) hasDirectBackendOp(fn *ssa.Function) bool {
+	var scan func(f *ssa.Function) bool
+	scan = func(f *ssa.Function) bool {
+		for _, b := range f.Blocks {
+			for _, ins := range b.Instrs {
+				ci, ok := ins.(ssa.CallInstruction)
+				if !ok {
+					continue
+				}
+				cc := ci.Common()
+				key := ""
+				if cc.IsInvoke() {
+					key = cc.Method.FullName()
+				} else if sc := cc.StaticCallee(); sc != nil {
+					key = funcKey(sc)
+				}
+				if c := ex.lib.Contracts[key]; c != nil && c.Flags["backend-op"] {
+					return true
+				}
+			}
+		}
+		for _, af := range f.AnonFuncs {
+			if scan(af) {
+				return true
+			}
+		}
+		return false
+	}
+	return scan(fn)
 }
